@@ -15,13 +15,17 @@ if files:
     subprocess.check_call(["go", "build", "-o", tool, "./tools/instrument"], cwd=harness, env=env)
     d = os.path.join(gen, "schedx")
     os.makedirs(d, exist_ok=True)
+    overrides = {}
+    if os.environ.get("VERIF_SRC_OVERRIDES"):
+        overrides = json.load(open(os.environ["VERIF_SRC_OVERRIDES"]))
     for rel in files:
-        src = os.path.join(repo, rel)
+        key = os.path.join(repo, rel)
+        src = overrides.get(key, key)   # a mutant supplied through VERIF_EXTRA_OVERLAY is what gets instrumented
         h = hashlib.sha1(open(src, "rb").read()).hexdigest()[:12]
         dst = os.path.join(d, rel.replace("/", "__")[:-3] + "." + h + ".go")
         if not os.path.exists(dst):
             tmp = dst + ".%d" % os.getpid()
             subprocess.check_call([tool, src, tmp])
             os.replace(tmp, dst)
-        out[src] = dst
+        out[key] = dst
 print(json.dumps(out))
